@@ -86,13 +86,6 @@ def sig_k8s_abandon(c, i, m, rec):
     return False
 
 
-def sig_ascii_class(c, i, m, rec):
-    """join_template ascii helper whose class differs from the class of the regexp it replaces, on
-    exactly the recorded bytes: the helper still answers as modelled (impl == model) - any other
-    byte changing its answer makes impl != model and is NOT this finding."""
-    return bool(c) and c[0] == "c15.ascii" and len(c) > 1 and c[1] == rec.get("helper") and i == m
-
-
 CFG = {
     "manifest": {
         "text": "Proof: Lean theorems (Props/C15.lean) state that the models of join.Plugin.Do/flush, of the join_template closures and of the k8s MultilineAction chunk buffer turn EVERY per-stream call sequence (any event content, any classifier results, time-outs, any size limits) into exactly what a run-grouping spec says: events outside runs unchanged and in order, each maximal run / container line one event carrying the in-order concatenation, truncated as the code truncates; per action instance, runs of different streams never mix under the single-owner hypothesis. The models are tied to the real plugins (registry factory + Start + Do with a recording controller) and to real pipelines (1/2/4 processors, interleaved streams, real stream time-outs) on every run.",
@@ -103,7 +96,7 @@ CFG = {
     "nontrivial": c15_nontrivial,
     "classify": c15_classify,
     "trace": True,
-    "rule": "join_template classifiers: every ascii helper on all 256 bytes (c15.ascii); the three templates' StartCheck/ContinueCheck on ~50 frames in which one byte decides a character class or a literal, that byte running over 0..255, every position of the case-insensitively compared literals over 0..255, the line pool and random splices with class-boundary bytes (c15.tpl); join: exhaustive call sequences over {start line, continuation, other, both, number, absent field, time-out} up to length 4 (quick) / 5 (thorough) x 5 configurations (negate, limits 0/2/3/5), then random sequences (PRNG regexps over a tiny alphabet, nested paths, non-string values, 1-3 stream tags, limits 0/1/3/8/64, time-outs mid-run and a few ill-timed); join_template: random sequences over every ordered selection of the three templates, values from a pool of template-relevant lines and mutations; k8s: exhaustive sequences over 16 log shapes (partial, ending, empty, escaped backslash+n, numbers of 1-3 digits, null, bool, object, array, absent, time-out) up to length 3 (quick) / 4 (thorough) x 5 limit settings, then random chunk sequences (escapes on chunk borders, limits 0/4/8/20/64 skip+cut, forced split); pipeline: real pipelines with 1/2/4 processors, 2-6 interleaved streams over 1-3 sources, pauses that let the real stream time-out fire. distinct = distinct case line; non-trivial = some call answered hold or collapse",
+    "rule": "join_template classifiers: every ascii helper on all 256 bytes (c15.ascii); the three templates' StartCheck/ContinueCheck on ~50 frames in which one byte decides a character class or a literal, that byte running over 0..255, every position of the case-insensitively compared literals over 0..255, the line pool and random splices with class-boundary bytes (c15.tpl), and every such frame inside real join_template sequences with the deciding byte over the class boundaries (quick) / 0..255 (thorough); join: exhaustive call sequences over {start line, continuation, other, both, number, absent field, time-out} up to length 4 (quick) / 5 (thorough) x 5 configurations (negate, limits 0/2/3/5), then random sequences (PRNG regexps over a tiny alphabet, nested paths, non-string values, 1-3 stream tags, limits 0/1/3/8/64, time-outs mid-run and a few ill-timed); join_template: random sequences over every ordered selection of the three templates, values from a pool of template-relevant lines and mutations; k8s: exhaustive sequences over 16 log shapes (partial, ending, empty, escaped backslash+n, numbers of 1-3 digits, null, bool, object, array, absent, time-out) up to length 3 (quick) / 4 (thorough) x 5 limit settings, then random chunk sequences (escapes on chunk borders, limits 0/4/8/20/64 skip+cut, forced split); pipeline: real pipelines with 1/2/4 processors, 2-6 interleaved streams over 1-3 sources, pauses that let the real stream time-out fire. distinct = distinct case line; non-trivial = some call answered hold or collapse",
     "corr_name": "JoinTemplates.* = real ascii helpers and template check functions; Join.run / Join.trun / K8s.run = real plugin Do calls (ActionResult, Propagate calls, event after the call); pipeline: every instance's observed calls replayed through Join.step, per-stream output = SpecC15.spec",
     "trusted_base": [
         "oracles per event: regexp.MatchString, insane-json Dig/IsString/AsString/MutateToString/AppendEscapedString (recomputed by exec from the case's regexps / template names / raw JSON; a case whose oracle bits disagree is rejected)",
@@ -117,7 +110,7 @@ CFG = {
         "k8s theorems: max_event_size = 0 or >= 4 (LimitOK); string fragments are quoted (shape of AppendEscapedString)",
         "chains with a second holding action downstream are outside this per-instance property (reordering there is the C02 known finding)",
     ],
-    "signatures": {"k8s_abandon": sig_k8s_abandon, "ascii_class": sig_ascii_class},
+    "signatures": {"k8s_abandon": sig_k8s_abandon},
     "chunk": 4000,
     "timeout": 1500,
 }
